@@ -74,6 +74,9 @@ def _self_field(fn, place_or_operand, is_place=False):
         src_of_operand(fn, place_or_operand, through_calls=TRANSPARENT + (r"DerefMut>::deref_mut$", r"Deref>::deref$"))
     if s.kind == "path" and s.root == "self" and s.fields and s.fields[0] in FIELDS:
         return s.fields[0]
+    # edition-2021 precise closure capture: `self.watched_keys` used inside a closure is captured as `self__watched_keys`
+    if s.kind == "path" and (s.root or "").startswith("self__") and s.root[6:].split("__")[0] in FIELDS:
+        return s.root[6:].split("__")[0]
     return None
 
 
@@ -316,9 +319,22 @@ def _rules(ck, prog, cfg):
     # executor-level twin: execute_watch may only add to self.watched_keys
     for ew in [g for g in prog.lib_fns() if g.short == "execute_watch" and g.file == "src/redis/executor/transaction_ops.rs"]:
         n6b = 0
+        def via_parent(g, operand):
+            """a closure that captured a local alias of the parent (`let watched = &mut self.watched_keys;`): resolve the alias there"""
+            fld = _self_field(g, operand)
+            if fld is not None or g is ew:
+                return fld
+            s_ = src_of_operand(g, operand, through_calls=TRANSPARENT + (r"DerefMut>::deref_mut$", r"Deref>::deref$"))
+            if s_.kind == "path" and s_.root and not s_.fields:
+                for nm in ew.names:
+                    if nm["n"] == s_.root and not nm["pl"].get("p"):
+                        sp_ = src_of_place(ew, {"l": nm["pl"]["l"]}, through_calls=TRANSPARENT + (r"DerefMut>::deref_mut$", r"Deref>::deref$"))
+                        if sp_.kind == "path" and sp_.root == "self" and sp_.fields and sp_.fields[0] in FIELDS:
+                            return sp_.fields[0]
+            return None
         for g in [ew] + prog.children(ew):
             for b, t in g.calls():
-                if t["args"] and _self_field(g, t["args"][0]) == "watched_keys":
+                if t["args"] and via_parent(g, t["args"][0]) == "watched_keys":
                     n6b += 1
                     allowed = is_callee(t, r"(AHashMap|HashMap)::<.*>::(insert|entry|len|is_empty|contains_key|get|iter|keys|reserve|extend)\b", r"Deref(Mut)?>::deref(_mut)?$",
                                         r"(AHashMap|HashMap)<.*> as std::iter::Extend<.*>>::extend")
@@ -419,6 +435,77 @@ def _xresets(fn):
     return out
 
 
+def _gate_leak(ex, sw, names):
+    """path-sensitive walk from the entry of CommandExecutor::execute to its dispatch switch `sw`: can the dispatch be reached with
+    in_transaction == true and a command other than EXEC/DISCARD/MULTI?  Tracks the set of possible Command variants (narrowed by
+    discriminant switches on a `&Command` parameter), bool locals assigned constants, and the outcome of the in_transaction test.
+    -> False (no leak), True (leak), None (could not decide)"""
+    ALLOWED = {"Exec", "Discard", "Multi"}
+    allv = frozenset(names)
+    intx_sw = {sb: (tt, ft) for tt, ft, sb in _in_tx_edges(ex)}
+    seen = set()
+    work = [(0, allv, (), None)]
+    steps = 0
+    while work:
+        b, vs, flags, intx = work.pop()
+        key = (b, vs, flags, intx)
+        if key in seen:
+            continue
+        seen.add(key)
+        steps += 1
+        if steps > 40000:
+            return None
+        if b == sw:
+            if intx is not False and not (vs <= ALLOWED):
+                return True
+            continue
+        fl = dict(flags)
+        for st in ex.blocks[b]["st"]:
+            l = st["lhs"].get("l")
+            if st["lhs"].get("p") or l is None:
+                continue
+            rv = st["rv"]
+            if rv["k"] == "use" and "c" in rv["a"] and str(rv["a"]["c"]).replace("const ", "") in ("true", "false"):
+                fl[l] = str(rv["a"]["c"]).replace("const ", "") == "true"
+            elif rv["k"] == "use" and op_local(rv["a"]) in fl and not (op_place(rv["a"]) or {}).get("p"):
+                fl[l] = fl[op_local(rv["a"])]
+            elif rv["k"] == "un" and rv.get("op") == "Not" and op_local(rv["a"]) in fl:
+                fl[l] = not fl[op_local(rv["a"])]
+            elif l in fl:
+                del fl[l]
+        flags2 = tuple(sorted(fl.items()))
+        t = ex.term(b)
+        if t["k"] == "return":
+            continue
+        if t["k"] == "switch":
+            si = switch_info(ex, b)
+            if b in intx_sw:
+                tt, ft = intx_sw[b]
+                if tt is not None:
+                    work.append((tt, vs, flags2, True))
+                if ft is not None:
+                    work.append((ft, vs, flags2, False))
+                continue
+            if si and si["kind"] == "discr" and si.get("ty") == "redis::command::Command":
+                listed = set()
+                for v, tg in t["cases"]:
+                    nv = vs & {names[int(v)]}
+                    listed.add(names[int(v)])
+                    if nv:
+                        work.append((tg, frozenset(nv), flags2, intx))
+                rest = vs - listed
+                if rest and t.get("else") is not None:
+                    work.append((t["else"], frozenset(rest), flags2, intx))
+                continue
+            l = op_local(t["d"])
+            if t.get("dt") == "bool" and l in fl:
+                work.append((edge_targets(ex, b, "1" if fl[l] else "0"), vs, flags2, intx))
+                continue
+        for s2 in ex.succ(b):
+            work.append((s2, vs, flags2, intx))
+    return False
+
+
 def _executor_twin(ck, prog, cfg):
     ex = prog.one(EX + "CommandExecutor::execute")
     names = [v["n"] for v in prog.adts["redis::command::Command"]["variants"]]
@@ -445,6 +532,11 @@ def _executor_twin(ck, prog, cfg):
             for v, tg in ex.term(inner)["cases"]:
                 if (inner, tg) in exempt and names[int(v)] not in ("Exec", "Discard", "Multi"):
                     path = [inner, tg]
+        if inner is None or path is not None:
+            # the same gate written with a flag: `let bypass = matches!(cmd, Exec | Discard | Multi); if in_transaction && !bypass { queue }`
+            leak = _gate_leak(ex, sw, names)
+            if leak is False:
+                inner, path = sw, None
         ck.check(inner is not None and path is None, "R05.1", "executor:dispatch-while-queuing" + _tag(cfg),
                  "with a transaction open a command other than EXEC/DISCARD/MULTI can reach the executing dispatch of CommandExecutor::execute "
                  "instead of being queued", ex.where(ex.term(sb)["ln"]), detail="only EXEC/DISCARD/MULTI pass the queue guard")
